@@ -101,6 +101,7 @@ type Result struct {
 	Stalls      int
 	TimeJumps   int
 	Quiescences int
+	Data        interface{} // set by the scenario through Env.SetData, for checks after the run
 }
 
 // Sim is one simulated run.
@@ -145,6 +146,7 @@ type Sim struct {
 	timerSeq int
 	simElapsed time.Duration
 	onStep   []func()
+	data     interface{}
 }
 
 type heldLock struct {
@@ -433,7 +435,7 @@ func (s *Sim) result() Result {
 	defer s.mu.Unlock()
 	r := Result{
 		Violation: s.viol, Steps: int(s.seq), Workers: s.nworkers, Switches: s.switches,
-		SchedHash: s.hash, Trace: s.trace, StepLimit: s.stepLim, Infra: s.infra,
+		Data: s.data, SchedHash: s.hash, Trace: s.trace, StepLimit: s.stepLim, Infra: s.infra,
 		Faults: s.faults, Probes: s.probes, Stalls: s.stalls, TimeJumps: s.jumps, Quiescences: s.quiesc,
 	}
 	if !s.cfg.Replay {
